@@ -47,6 +47,14 @@ CLAIMS = {
    technique="runtime monitoring: reference-model oracle (rule-by-rule transcription of the Matrix authorization rules with the library's documented departures) compared with Allowed on composed (version, create variant, auth state, event) cases built from pools of real events; per-rule coverage histogram with floors",
    text="For each of the 15 non-pseudo-ID room versions and 4 create-event variants, pools of real power-levels / join-rules / member / third-party-invite events are built; tens of thousands of cases per run combine a random auth state with one of 16 event kinds by 5 users on 3 servers and compare the library's verdict with the reference model's, which also names the deciding rule (85 rule outcomes, all counted in the evidence; key ones have floors). Sampled, with explicit abstention regions (DESIGN.md 5.3).",
    note=TB + "events are built by the real EventBuilder; pseudo-ID room version not driven; abstention regions of DESIGN.md 5.3."),
+ "C08": dict(level="exploration", design="§4 C08",
+   technique="runtime monitoring: invariant monitor over ACCEPTED power-levels events only (no-escalation on effective values, creators never named in v12, integer levels in v10+), fed by enumerated single-key changes, random multi-key proposals and histories of successive proposals applied to a room",
+   text="Independent of the C07 model: the monitor never predicts the verdict, it inspects what the real Allowed accepted. Single-key changes are enumerated over 13 keys x {absent,<,=,>} old x {absent,<,=,>} new x 4 sender kinds x 15 versions; thousands of random proposals and hundreds of 10-30 step histories add multi-key and sequential behaviour, with history invariants (no self-promotion, no level above the initial maximum). Floors make sure every key was actually changed by an accepted event.",
+   note=TB + "effective-value reading (weakest); abstains on null levels and notification levels equal to the sender's."),
+ "C09": dict(level="exploration", design="§4 C09",
+   technique="runtime monitoring: metamorphic comparison of Allowed verdicts (repeat, insertion order, needed-state-only, unrelated additions, AddAuthEvents sufficiency) and of a reused checker (hook VerifAllower, driven like state resolution) against fresh evaluations over generated sequences",
+   text="Each C07-style case is re-evaluated under five verdict-preserving transformations, and sequences of 2-40 evaluations share one checker whose every verdict must equal the fresh one. The hook adds no logic: it forwards to newAllowerContext / update / allowed. Sampled sequences; restricted joins and provider changes are forced to occur (non-triviality rule).",
+   note=TB + "Allowed on a fresh provider as reference point (decided by C07); abstains on unparsable power-levels / join-rules state."),
 }
 NOT_YET = "check not built yet (work in progress; see DESIGN.md §4 for the planned monitor)"
 
